@@ -51,6 +51,10 @@ CLAIMED.update({
                 ref='DESIGN.md §3 C19'),
     'C21': dict(text='one clock of Audio.tickTimer from every APU state: square channels count down and step the duty index with period 4(2048-f), wave channel 2(2048-f) with the addressed nibble, noise channel d(r)*2^s for all NR43 with s<=13, and the shift-register update equals the documented LFSR step (15-bit and 7-bit) for all 2^16 states; bounded full-period unrollings for the highest frequencies',
                 ref='DESIGN.md §3 C21'),
+    'C06': dict(text='one write through the real Mapper (address class = configuration: each plain range with a symbolic address, each of 49 I/O registers; value symbolic) from every machine state (all components arbitrary under their proved invariants), then the written location reads back as documented: plain memory for WRAM/HRAM/VRAM/OAM (DMA idle)/IE/wave RAM (channel 3 off), echo both ways, FEA0-FEFF 0, unmapped I/O FF, per-register writable and always-one masks, STAT read-only bits kept, LY/DIV never set to the written value, FF46 = value written; inductive (any sequence)',
+                ref='DESIGN.md §3 C06'),
+    'C07': dict(text='one write through the real Mapper from every machine state, with a second fully symbolic address over the whole 64 KiB read before and after: the read may change only where the documented effect relation (same address, echo partner, cartridge windows for control writes, LCDC->STAT/LY, DMA->OAM window, NR52->APU range, envelope/DAC/trigger/sweep registers->NR52 and wave RAM for channel 3) allows; per cartridge kind',
+                ref='DESIGN.md §3 C07'),
 })
 
 NA_REASON = {
